@@ -539,6 +539,15 @@ class Walker:
                     # what a loop-carried variable holds when the loop is entered (its value in the first iteration)
                     self.emit(st, "loopinit", body[0], name=name, lid=lid, value=st.env[name])
                 st.env[name] = ("hv", name, lid + tag)
+        # a list the body grows or shrinks: what its last element is at the top of an iteration is not what it was before the loop
+        if st.last and any(isinstance(n, ast.Call) and isinstance(n.func, ast.Attribute) and n.func.attr in MUTATING for stn in body for n in ast.walk(stn)) or \
+                any(isinstance(n, ast.AugAssign) for stn in body for n in ast.walk(stn)):
+            st.last.clear()
+        for stn in body:
+            for n in ast.walk(stn):
+                if isinstance(n, ast.Call) and isinstance(n.func, ast.Attribute) and n.func.attr in MUTATING and isinstance(n.func.value, ast.Name) \
+                        and n.func.value.id in st.env and isinstance(st.env[n.func.value.id], tuple) and st.env[n.func.value.id][0] in ("lst", "newb", "comp"):
+                    self.bump(st, st.env[n.func.value.id])  # a local container the body changes
         # fields and containers written in the body (syntactically or through callees)
         keys = self._body_writes(body, st)
         if ("ALL",) in keys:
